@@ -1396,6 +1396,7 @@ func runTokens(c *engine.Ctx) engine.Result {
 	r.Sample(cases[directed/2])
 	r.Sample(cases[len(cases)-1])
 	engine.ForEach(len(cases), engine.Workers(), func(i int) { runTKCase(c, cases[i]) })
+	runTokensStoreOnceAll(c)
 
 	// observations about the stored ID
 	ids := r.Counter("tokens-searched")
